@@ -47,8 +47,33 @@ pub fn build_case(d: &mut Driver, rep: &mut Report, cfg: &WCfg, es: &[(Vec<u8>, 
 }
 
 pub fn gen_case(d: &mut Driver, rep: &mut Report, rng: &mut Rng, max_n: usize) -> Option<TableCase> {
+    // one case in six: a table spanning several 2 KiB filter ranges made of many small blocks, with a
+    // padded first value so that block offsets sweep every alignment relative to the range boundaries
+    if max_n >= 20 && rng.chance(1, 6) {
+        return gen_multi_range_case(d, rep, rng);
+    }
     let cfg = gen_wcfg(rng);
     let es = gen_entries(rng, &cfg.cmp, max_n, 80);
+    build_case(d, rep, &cfg, &es)
+}
+
+/// many one- or few-entry blocks over > 2 KiB; `pad` shifts every later block offset
+pub fn gen_multi_range_case(d: &mut Driver, rep: &mut Report, rng: &mut Rng) -> Option<TableCase> {
+    let mut cfg = gen_wcfg(rng);
+    cfg.block_size = *rng.pick(&[0usize, 1, 8, 24, 48]);
+    cfg.snappy = false;
+    if !matches!(cfg.pol, PolKind::Bloom(_)) && rng.chance(2, 3) {
+        cfg.pol = PolKind::Bloom(10);
+    }
+    let n = rng.range(90, 260);
+    let vlen = rng.range(0, 12);
+    let mut es: Vec<(Vec<u8>, Vec<u8>)> = (0..n).map(|i| (format!("k{:04}", i).into_bytes(), rng.any_bytes(vlen))).collect();
+    if cfg.cmp == CmpKind::Reverse {
+        es.reverse();
+    }
+    let pad = rng.below(48);
+    es[0].1 = vec![0x70; pad];
+    rep.count("multi_range_tables");
     build_case(d, rep, &cfg, &es)
 }
 
